@@ -8,6 +8,8 @@
  *   R:<hex>;<hex>;...      reference text per ITEM, computed with libc only: literal itself, "%" for P,
  *                          snprintf(one specification, the C value the property assigns) for C,
  *                          show_to(arg, fresh String, 0) for D; '-' when the item has no argument
+ *   W:<hex>|-              libc's snprintf of the WHOLE format in one call (only when every specification takes the
+ *                          same C type, at most 8 of them; %$ stands as %s with the show text); '-' otherwise
  *   S:<exn>:<ret>:<cstr>:<seg>   print_to_with on a heap String holding <init>, at <pos>:
  *                          exn = ok | exception name; cstr = the String's C string afterwards;
  *                          seg = raw bytes [pos,ret) of its buffer (what was written), empty unless ok
@@ -219,6 +221,54 @@ static void one_case(char* line) {
     else if (it->kind == 'C') reference(it, &args[it->arg]);
     else it->ref = show_text(args[it->arg].obj, &it->rlen);
     phex(it->ref, it->rlen);
+  }
+  /* whole-format reference: ONE snprintf call on the entire format (%$ replaced by %s with the show text),
+     possible in portable C when all specifications take the same C type and there are at most 8 */
+  {
+    char cls = 0; int ok = 1, ncons = 0;
+    for (int i = 0; i < nitems && ok; i++) {
+      struct Item* it = &items[i]; char c = 0;
+      if (it->kind == 'D') c = 'S';
+      else if (it->kind == 'C') {
+        const char* l = it->len;
+        int narrow = !l[0] || !strcmp(l, "h") || !strcmp(l, "hh");
+        if (strchr("dic", it->conv)) c = narrow ? 'I' : !strcmp(l, "l") ? 'L' : 'x';
+        else if (strchr("uoxX", it->conv)) c = narrow ? 'U' : !strcmp(l, "l") ? 'M' : 'x';
+        else if (strchr("fFeEgGaA", it->conv)) c = 'D';
+        else if (it->conv == 's') c = 'S';
+        else if (it->conv == 'p') c = 'P';
+      } else continue;
+      if (it->arg < 0 || it->arg >= nargs || c == 'x') { ok = 0; break; }
+      if (cls && cls != c) { ok = 0; break; }
+      cls = c; ncons++;
+    }
+    if (!ok || ncons > 8 || ncons == 0) P(" | W:-");
+    else {
+      size_t fl = 0; for (int i = 0; i < nitems; i++) fl += items[i].tlen;
+      char* wf = malloc(fl + 1); size_t o = 0;
+      int64_t iv[8] = {0}; double dv[8] = {0}; const char* sv[8] = {0}; void* pv[8] = {0}; int k = 0;
+      for (int i = 0; i < nitems; i++) {
+        struct Item* it = &items[i];
+        if (it->kind == 'D') { wf[o++] = '%'; wf[o++] = 's'; sv[k++] = it->ref; continue; }
+        memcpy(wf + o, it->text, it->tlen); o += it->tlen;
+        if (it->kind == 'C') { struct Arg* a = &args[it->arg]; iv[k] = a->iv; dv[k] = a->dv; sv[k] = a->sv; pv[k] = a->pv; k++; }
+      }
+      wf[o] = 0;
+      int n = -1; char* b = NULL;
+#define WHOLE(T, A) do { n = snprintf(NULL, 0, wf, (T)A[0], (T)A[1], (T)A[2], (T)A[3], (T)A[4], (T)A[5], (T)A[6], (T)A[7]); \
+        if (n >= 0) { b = malloc((size_t)n + 1); snprintf(b, (size_t)n + 1, wf, (T)A[0], (T)A[1], (T)A[2], (T)A[3], (T)A[4], (T)A[5], (T)A[6], (T)A[7]); } } while (0)
+      switch (cls) {
+        case 'I': WHOLE(int, iv); break;
+        case 'U': WHOLE(unsigned, iv); break;
+        case 'L': WHOLE(long, iv); break;
+        case 'M': WHOLE(unsigned long, iv); break;
+        case 'D': WHOLE(double, dv); break;
+        case 'S': WHOLE(const char*, sv); break;
+        case 'P': WHOLE(void*, pv); break;
+      }
+      P(" | W:");
+      if (n >= 0) phex(b, (size_t)n); else P("-");
+    }
   }
   var objs[MAXI];
   for (int i = 0; i < nargs; i++) objs[i] = args[i].obj;
